@@ -786,6 +786,12 @@ pub(crate) fn m_hard_wrap() {
                     assert!(l.len <= width, "flushed line wider than the block: {} > {}", l.len, width);
                 }
             }
+            // with overflow allowed a line overflows only by a character that is wider than the block
+            if all.chars().all(|c| UnicodeWidthChar::width(c).unwrap_or(0) <= width) {
+                for l in wb.text.iter() {
+                    assert!(l.len <= width, "a line overflows although every character fits the block: {} > {}", l.len, width);
+                }
+            }
             assert!(wb.line.width() == wb.line.len, "line length bookkeeping differs from the display width");
             let mut got = String::new();
             for l in wb.text.iter() {
